@@ -3,11 +3,13 @@ package simharness
 import (
 	"bytes"
 	"context"
+	"reflect"
 	"errors"
 	"fmt"
 	"io"
 	"os"
 	"path/filepath"
+	"runtime"
 	"sort"
 	"strings"
 	"sync/atomic"
@@ -82,6 +84,24 @@ func (o Op) String() string {
 type CtxPlan struct {
 	Mode   string `json:"mode"`    // "" none | pre (already cancelled) | cancel | deadline
 	AtStep int    `json:"at_step"` // scheduler step at which cancel / deadline happens
+	Custom bool   `json:"custom"`  // the caller's context is a type of its own (the context package then watches it with a goroutine)
+}
+
+// ownCtx is a context implemented by the caller, not by package context.
+type ownCtx struct {
+	done chan struct{}
+	err  error
+}
+
+func (c *ownCtx) Deadline() (time.Time, bool) { return time.Time{}, false }
+func (c *ownCtx) Done() <-chan struct{}       { return c.done }
+func (c *ownCtx) Err() error                  { return c.err }
+func (c *ownCtx) Value(any) any               { return nil }
+func (c *ownCtx) cancel() {
+	if c.err == nil {
+		c.err = context.Canceled
+		close(c.done)
+	}
 }
 
 // DiskPlan configures the filesystem seam.
@@ -117,6 +137,10 @@ type Env struct {
 	MapSeed uint64
 	// FlushWriter: the caller's writer also has a Flush() error method (like *bufio.Writer)
 	FlushWriter bool
+	// StringWriter: the caller's writer also implements io.StringWriter
+	StringWriter bool
+	// DiscardWriter: the destination is io.Discard itself
+	DiscardWriter bool
 }
 
 type PanicInfo struct {
@@ -168,6 +192,8 @@ type Outcome struct {
 	WritesAtReturn, VisitsAtReturn, MutOpsAtReturn int
 	LateEffects                                    string
 	StaleNodes                                     string
+	Tampered                                       string // the library modified a slice that belongs to the caller
+	Untracked                                      int    // goroutines left at final quiescence that the simulator did not start
 }
 
 func errStr(e error) string {
@@ -190,7 +216,11 @@ func buildNode(m *MNode) *gtree.Node {
 	return root
 }
 
+// lastExtsGiven is the extension slice handed to the library by the last opOptions call.
+var lastExtsGiven []string
+
 func opOptions(op Op, ctx context.Context, target string) []gtree.Option {
+	lastExtsGiven = nil
 	var opts []gtree.Option
 	if op.Massive {
 		if op.NilCtx {
@@ -239,7 +269,8 @@ func opOptions(op Op, ctx context.Context, target string) []gtree.Option {
 		}
 	}
 	if op.Exts != nil {
-		opts = append(opts, gtree.WithFileExtensions(op.Exts))
+		lastExtsGiven = append(make([]string, 0, len(op.Exts)+2), op.Exts...) // own backing array, spare capacity
+		opts = append(opts, gtree.WithFileExtensions(lastExtsGiven))
 	}
 	if op.EmptyTarget {
 		opts = append(opts, gtree.WithTargetDir(""))
@@ -252,7 +283,7 @@ func opOptions(op Op, ctx context.Context, target string) []gtree.Option {
 	if op.NoIter {
 		opts = append(opts, gtree.WithNoUseIterOfSimpleOutput())
 	}
-	return opts
+	return withSentinel(opts)
 }
 
 // invoke calls the public entry point selected by op.
@@ -297,6 +328,9 @@ func invoke(op Op, w io.Writer, r io.Reader, root *gtree.Node, cb *simCallback, 
 			}
 			cb.visits = append(cb.visits, visitOf(wn))
 			cb.ptrs = append(cb.ptrs, wn)
+			if idx == 0 && cb.inner != nil {
+				cb.inner()
+			}
 			if cb.Fired {
 				cb.after++
 			}
@@ -405,9 +439,16 @@ func Exec(op Op, env *Env) *Outcome {
 		var w io.Writer = wr
 		if env.FlushWriter {
 			w = flushWriter{wr}
+		} else if env.StringWriter {
+			w = stringWriter{wr}
+		} else if env.DiscardWriter {
+			w = io.Discard
 		}
-		out.Err = invoke(op, w, rd, root, cb, opOptions(op, ctx, target))
+		opts := opOptions(op, ctx, target)
+		given := lastExtsGiven
+		out.Err = invoke(op, w, rd, root, cb, opts)
 		out.Returned = true
+		out.Tampered = tampered(opts, given, op.Exts)
 	}()
 	collect(out, rd, wr, cb, d)
 	out.CtxErr = ctx.Err()
@@ -474,11 +515,26 @@ func execSim(op Op, env *Env) *Outcome {
 			switch env.Ctx.Mode {
 			case "pre":
 				ctx, cancel = context.WithCancel(ctx)
+				if env.Ctx.Custom {
+					oc := &ownCtx{done: make(chan struct{})}
+					ctx, cancel = oc, oc.cancel
+				}
 				cancel()
 				out.CancelFired = true
 				out.CancelBeforeReturn = true
+			case "own":
+				// never cancelled during the call, but a context type of the caller's own
+				// (deliberately not cancelled by the harness at the end either: a goroutine that
+				// package context started to watch it must have been released by the library itself,
+				// or it is still there when the bubble ends)
+				oc := &ownCtx{done: make(chan struct{})}
+				ctx, cancel = oc, nil
 			case "cancel":
 				ctx, cancel = context.WithCancel(ctx)
+				if env.Ctx.Custom {
+					oc := &ownCtx{done: make(chan struct{})}
+					ctx, cancel = oc, oc.cancel
+				}
 				run.AtStep[env.Ctx.AtStep] = append(run.AtStep[env.Ctx.AtStep], func() {
 					out.CancelFired = true
 					out.CancelStep = run.Steps
@@ -523,9 +579,15 @@ func execSim(op Op, env *Env) *Outcome {
 				}
 			}
 			opts := opOptions(op, ctx, target)
+			given := lastExtsGiven
+			g0 := runtime.NumGoroutine()
 			var w io.Writer = wr
 			if env.FlushWriter {
 				w = flushWriter{wr}
+			} else if env.StringWriter {
+				w = stringWriter{wr}
+			} else if env.DiscardWriter {
+				w = io.Discard
 			}
 			run.Spawn("0", "harness:0:caller", func() {
 				out.Err = invoke(op, w, rd, root, cb, opts)
@@ -536,6 +598,11 @@ func execSim(op Op, env *Env) *Outcome {
 				}
 			})
 			run.Loop()
+			// goroutines that exist now, were not there before the call and are not tasks of the
+			// simulator: started by library code the instrumenter does not see (package context
+			// watching a foreign context type, for instance)
+			_ = g0
+			out.Tampered = tampered(opts, given, op.Exts)
 			// snapshot the task states at final quiescence, before the deferred clean-up of the
 			// harness (cancel of its own context) can wake anything
 			infos = run.Infos()
@@ -733,4 +800,42 @@ func effectiveBranch(op Op) []string {
 		return []string{def[0], def[1], op.Branch[2], op.Branch[3]}
 	}
 	return op.Branch
+}
+
+// withSentinel copies the options into a slice with spare capacity whose first spare
+// element holds a known option: a library that appends to the caller's slice instead of
+// copying it overwrites that element (and with it, in real programs, the caller's data).
+func withSentinel(opts []gtree.Option) []gtree.Option {
+	res := make([]gtree.Option, len(opts), len(opts)+3)
+	copy(res, opts)
+	res[:cap(res)][len(opts)] = sentinelOpt
+	return res
+}
+
+// one value, compared by its code pointer (a second call of the constructor may be inlined
+// into a different copy of the function literal)
+var sentinelOpt = gtree.WithNoUseIterOfSimpleOutput()
+
+func sentinelIntact(opts []gtree.Option) bool {
+	full := opts[:cap(opts)]
+	if len(full) <= len(opts) || full[len(opts)] == nil {
+		return len(full) <= len(opts)
+	}
+	return reflect.ValueOf(full[len(opts)]).Pointer() == reflect.ValueOf(sentinelOpt).Pointer()
+}
+
+// tampered describes what the library did to the caller's own slices, "" if nothing.
+func tampered(opts []gtree.Option, extsGiven, extsCopy []string) string {
+	if !sentinelIntact(opts) {
+		return "the library wrote into the spare capacity of the caller's option slice"
+	}
+	if len(extsGiven) != len(extsCopy) {
+		return "caller's extension slice changed length"
+	}
+	for i := range extsGiven {
+		if extsGiven[i] != extsCopy[i] {
+			return fmt.Sprintf("the library changed the caller's extension slice: element %d was %q and is %q", i, extsCopy[i], extsGiven[i])
+		}
+	}
+	return ""
 }
